@@ -43,5 +43,5 @@ cat > dune <<'EOD'
 (executable (name main) (flags (:standard -w -a)))
 EOD
 [ -f dune-project ] || echo '(lang dune 2.9)' > dune-project
-dune build --profile release ./main.exe 2>&1 | head -50
+dune build --profile release ./main.exe > build.log 2>&1 || { head -60 build.log; rm -f "$B/model_oracle"; exit 1; }
 cp -f _build/default/main.exe "$B/model_oracle.new" && mv -f "$B/model_oracle.new" "$B/model_oracle"
